@@ -615,7 +615,16 @@ impl Scen {
                         match act {
                             Act::Withdraw { all: true, .. } => self.dust_l[bi] += big(fx(was.liability_shares)),
                             Act::Repay { all: true, .. } => self.dust_a[bi] += big(fx(was.asset_shares)),
-                            Act::Purge { .. } => {} // the bank total is reduced by exactly the purged shares: no dust
+                            Act::Purge { .. } => {
+                                // the bank's deposit total is reduced by exactly the purged deposit shares; a liability residue
+                                // of the position (the handler tolerates one) is abandoned in the bank's debt total: dust
+                                self.dust_l[bi] += big(fx(was.liability_shares));
+                                let thr = big(I80F48::from_num(0.0001).to_bits());
+                                let vl = (big(fx(was.liability_shares)) * big(fx(post.liability_share_value))) >> 48u32;
+                                if vl >= thr {
+                                    rep.fail(format!("C02 purge-abandons-liability-above-dust: purge_deleverage_balance abandoned a debt residue worth {} bits (0.0001 unit = {} bits); hist {:?}", vl, thr, self.hist));
+                                }
+                            }
                             Act::CloseBalance { .. } => {
                                 self.dust_a[bi] += big(fx(was.asset_shares));
                                 self.dust_l[bi] += big(fx(was.liability_shares));
@@ -735,6 +744,43 @@ pub fn run(rng: &mut Rng, n: usize, rep: &mut Report) {
                             break;
                         }
                     }
+                }
+            }
+        }
+        // ---- directed: a purge in a sunset bank of a lender position that carries a debt residue around the 0.0001-unit
+        //      tolerance while the debt share value is above 1 (on a clone; the residue is put there by state edit, as the
+        //      dust a DepositOnly deposit tolerates and interest then grows)
+        {
+            let thr = I80F48::from_num(0.0001).to_bits();
+            for b in 0..s.banks.len() {
+                let h = s.banks[b];
+                for u in 0..s.users.len() {
+                    let key = s.users[u].acct;
+                    let Some(bal0) = s.w.marginfi_account(&key).lending_account.get_balance(&h.bank).cloned() else { continue };
+                    if fx(bal0.asset_shares) < ONE || fx(bal0.liability_shares) != 0 { continue; }
+                    let mut w2 = s.w.clone();
+                    let mut bk = w2.bank(&h.bank);
+                    bk.flags |= marginfi_type_crate::constants::TOKENLESS_REPAYMENTS_ALLOWED | marginfi_type_crate::constants::TOKENLESS_REPAYMENTS_COMPLETE;
+                    let lsv = ONE + (rng.below(ONE as u64) as i128);
+                    bk.liability_share_value = I80F48::from_bits(lsv).into();
+                    // residue: shares chosen so that the VALUE is 60 % .. 190 % of the tolerance
+                    let want_val = thr * (60 + rng.below(130) as i128) / 100;
+                    let shares = (want_val << 48) / lsv;
+                    bk.total_liability_shares = I80F48::from_bits(fx(bk.total_liability_shares) + shares).into();
+                    w2.set_bank(&h.bank, &bk);
+                    let mut a = w2.marginfi_account(&key);
+                    for x in a.lending_account.balances.iter_mut() {
+                        if x.is_active() && x.bank_pk == h.bank { x.liability_shares = I80F48::from_bits(shares).into(); }
+                    }
+                    w2.set_marginfi_account(&key, &a);
+                    let Some(ixn) = s.instruction(&Act::Purge { u, b }) else { continue };
+                    let r = w2.exec(&ixn);
+                    let val = (big(shares) * big(lsv)) >> 48u32;
+                    rep.bump(if r.is_ok() { "purge_probe_accepted" } else { "purge_probe_refused" });
+                    if r.is_ok() && val >= big(thr) {
+                        rep.fail(format!("C02 purge-abandons-liability-above-dust: purge_deleverage_balance closed a position whose debt residue of {} shares is worth {} bits at debt share value {} (0.0001 unit = {} bits): the bank's debt total keeps more than dust that no position backs", shares, val, lsv, thr));
+                    }
+                    break;
                 }
             }
         }
